@@ -4,6 +4,7 @@ use serde_json::Value;
 pub type AreaFn = fn(&Value) -> Vec<Value>;
 
 pub mod co;
+mod conc;
 pub mod sched;
 mod pool;
 mod net20;
@@ -16,6 +17,7 @@ pub fn lookup(name: &str) -> Option<AreaFn> {
         "time" => Some(time::run),
         "ows" => Some(ows::run),
         "co" => Some(co::run),
+        "conc" => Some(conc::run),
         "sched" => Some(sched::run),
         "pool" => Some(pool::run),
         "net20" => Some(net20::run),
